@@ -34,6 +34,7 @@ TraceInit == /\ l = 1 /\ tms = EmptyMap /\ lasts = EmptyMap /\ allowed = EmptyMa
              /\ TLCSet(1, 0)
 
 EvReset == /\ IsEvent("reset")
+           /\ pend = <<>>
            /\ tms' = EmptyMap /\ lasts' = EmptyMap /\ allowed' = EmptyMap /\ pend' = <<>> /\ acc' = EmptyMap
 
 EvNew == /\ IsEvent("new")
@@ -47,7 +48,9 @@ EvAllow == /\ IsEvent("allow")
            /\ allowed' = MapPut(allowed, Rec[l].p, ToSet(Rec[l].allowed))
            /\ UNCHANGED <<tms, lasts, pend, acc>>
 
+\* every call is answered (ret, panic, crash, hang ...) before the next one starts: a missing `ret` rejects the trace
 EvCall == /\ IsEvent("call")
+          /\ pend = <<>>
           /\ Rec[l].p \in DOMAIN tms
           /\ pend' = << [p |-> Rec[l].p, buf |-> Rec[l].buf] >>
           /\ UNCHANGED <<tms, lasts, allowed, acc>>
@@ -281,6 +284,7 @@ EvRound == /\ IsEvent("round")
 \* C13, last clause: parse_bytes_as_netflow_common_flowsets = the in-order concatenation of the common
 \* flows of the non-error packets of the buffer (per-packet views taken on a twin with the same caches)
 EvFlat == /\ IsEvent("flat")
+          /\ pend = <<>>
           /\ pend' = << [p |-> Rec[l].p, buf |-> Rec[l].buf] >>
           /\ UNCHANGED <<tms, lasts, allowed, acc>>
 EvFlatRet == /\ IsEvent("flatret")
